@@ -1248,3 +1248,5 @@ fault("c16-member-date-through-a-validating-constructor", "C16", "R16o",
       (ZIP, "time.mktime(", "datetime.datetime(*zi.date_time).timestamp() or time.mktime("))
 fault("c05-protocol-asks-the-real-file-system", "C05", "R05o",
       (PBASE, "    def gethandler(self) -> BaseHandler:\n", "    def selectorexists(self):\n        import os.path\n\n        return os.path.exists(self.config.get(\"pygopherd\", \"root\") + self.selector)\n\n    def gethandler(self) -> BaseHandler:\n"))
+fault("c17-nocall-applies-to-intermediate-elements", "C17", "R17p",
+      (TALES, "\t\t\t\telif (hasattr (val, \"__call__\")):temp = val()\n\t\t\t\telse: temp = val\n", "\t\t\t\telif (canCall and hasattr (val, \"__call__\")):temp = val()\n\t\t\t\telse: temp = val\n"))
